@@ -80,6 +80,7 @@ pub struct Violation {
 }
 
 const KEEP_PER_CLASS: usize = 3;
+const VIOLATION_CAP: u64 = 200_000;
 
 /// Per-thread accumulator, merged into the global report at the end of a shard.
 #[derive(Default)]
@@ -193,11 +194,21 @@ impl Report {
         let chunk = ((n / (threads as u64 * 64)).max(1)).min(1 << 20);
         let next = AtomicU64::new(0);
         let total = Mutex::new(Acc::default());
+        // a space is abandoned (and reported as not exhaustive) once it has produced this many
+        // violating cases: the verdict is already "violated", and panicking cases are slow
+        let seen_violations = AtomicU64::new(0);
+        let stopped = std::sync::atomic::AtomicBool::new(false);
         std::thread::scope(|s| {
             for _ in 0..threads {
                 s.spawn(|| {
+                    let _pin = pin_foreign_chunks();
                     let mut acc = Acc::default();
+                    let mut mine = 0u64;
                     loop {
+                        if seen_violations.load(Ordering::Relaxed) > VIOLATION_CAP {
+                            stopped.store(true, Ordering::Relaxed);
+                            break;
+                        }
                         let lo = next.fetch_add(chunk, Ordering::Relaxed);
                         if lo >= n {
                             break;
@@ -213,6 +224,9 @@ impl Report {
                                 panic_text(p),
                             );
                         }
+                        let now: u64 = acc.classes.values().map(|(c, _)| *c).sum();
+                        seen_violations.fetch_add(now - mine, Ordering::Relaxed);
+                        mine = now;
                     }
                     total.lock().unwrap().merge(acc);
                 });
@@ -220,12 +234,13 @@ impl Report {
         });
         let acc = total.into_inner().unwrap();
         self.acc.merge(acc);
+        let was_stopped = stopped.load(Ordering::Relaxed);
         self.spaces.push(Space {
             name: name.to_string(),
             size: n,
-            exhaustive: true,
+            exhaustive: !was_stopped,
             wall_s: t0.elapsed().as_secs_f64(),
-            note: note.to_string(),
+            note: if was_stopped { format!("{} -- ABANDONED after more than {} violating cases (space not completed)", note, VIOLATION_CAP) } else { note.to_string() },
         });
         eprintln!("[{} {}] space {:<40} n={:<14} {:.1}s", self.ctx.prop, PROFILE, name, n, t0.elapsed().as_secs_f64());
     }
@@ -298,4 +313,20 @@ impl Report {
             1
         }
     }
+}
+
+/// glibc keeps freed chunks in a per-thread cache regardless of the arena they came from. A worker
+/// thread frees a few chunks that the spawning thread allocated (closure box, thread packet); these
+/// main-arena chunks then cycle through the worker's cache and every `realloc` on them takes the
+/// main arena's lock, serialising allocation-heavy sweeps (format, parse). Draining the cache of
+/// small chunks once at thread start and holding them for the thread's lifetime removes them
+/// from circulation.
+pub fn pin_foreign_chunks() -> Vec<Vec<u8>> {
+    let mut hold = Vec::with_capacity(1024);
+    for size in (8..=1032).step_by(16) {
+        for _ in 0..8 {
+            hold.push(Vec::with_capacity(size));
+        }
+    }
+    hold
 }
